@@ -29,12 +29,16 @@
 (*     OptimizationHistory.optimum / check_design_point_is_feasible /      *)
 (*     Constraints.is_point_feasible as coded (brk, emp: the two rules     *)
 (*     that D8 is about; TRUE,TRUE = the code as read on the pinned tree). *)
-(* TLC checks the design-level theorem Acceptable(c,h,Select(c,h,F,F)) on  *)
-(* every instance (invariant) and evaluates it for the other rule variants *)
-(* (dumped per instance: the counterexamples are the design-level form of  *)
-(* D8).  The instances are dumped as JSON for the replay on the real       *)
-(* Database/OptimizationProblem; the reports of the real code come back to *)
-(* TLC through OptHistoryReport.tla.                                       *)
+(* TLC checks on every instance (invariants): the design-level theorem     *)
+(* Acceptable(c,h,Select(c,h,F,F)) for the repaired rules; that the        *)
+(* algorithm AS CODED breaks the relation only in the two classes of D8    *)
+(* (CodedOutsideD8; the verdict of the coded variant is emitted with each  *)
+(* instance: its counterexamples are the design-level form of D8); that    *)
+(* the violation measure as transcribed is the documented formula over the *)
+(* recorded constraints (MeasureTheorem).  Each instance is emitted as one *)
+(* JSON line (Emit) for the replay on the real Database /                  *)
+(* OptimizationProblem; the answers of the real code come back to TLC      *)
+(* through OptHistoryReport.tla, which evaluates the relation on them.     *)
 (***************************************************************************)
 EXTENDS Integers, Sequences, FiniteSets, TLC, Json, IOUtils
 
